@@ -27,6 +27,9 @@ if REPO != "/repo":
 sys.path.insert(0, os.path.join(VERIF, "driver"))
 from props import PROPS, STUB_SETS  # noqa: E402
 
+# evidence / replays of development runs against another checkout never touch the committed ones
+OUT = VERIF if REPO == "/repo" else BUILD
+
 HARNESS_RE = re.compile(
     r'((?:[ \t]*#\[kani::[^\]]+\]\s*)*)fn\s+(c\d\d_\w+)\(\)\s*\[([^\]]*)\]\s*:\s*"(.)\|([^"]*)"'
 )
@@ -317,9 +320,9 @@ def same_failure(check, native_last):
 
 
 def write_replay(prop, h, check, vals, native, kind):
-    os.makedirs(os.path.join(VERIF, "replays"), exist_ok=True)
+    os.makedirs(os.path.join(OUT, "replays"), exist_ok=True)
     key = hashlib.sha1(json.dumps([h["full"], vals]).encode()).hexdigest()[:10]
-    path = os.path.join(VERIF, "replays", "%s-%s-%s.json" % (prop, h["name"], key))
+    path = os.path.join(OUT, "replays", "%s-%s-%s.json" % (prop, h["name"], key))
     json.dump(
         dict(property=prop, harness=h["full"], description=h["desc"], failed_check=check,
              kind=kind, values=vals, native=native,
@@ -426,8 +429,8 @@ def run_property(prop, tier, seed, only, jobs_override):
             errs = [l for l in out.splitlines() if l.startswith("error")]
             log("\n".join(errs[:20]))
             if cfg.get("build_failure_is_violation"):
-                os.makedirs(os.path.join(VERIF, "replays"), exist_ok=True)
-                path = os.path.join(VERIF, "replays", "%s-build-failure.log" % prop)
+                os.makedirs(os.path.join(OUT, "replays"), exist_ok=True)
+                path = os.path.join(OUT, "replays", "%s-build-failure.log" % prop)
                 open(path, "w").write(out)
                 violations.append(("build", path))
                 log("VIOLATION property=%s replay=%s" % (prop, path))
@@ -547,7 +550,7 @@ def handle_failure(prop, h, r, target_dir, extra, env, mem_kb, timeout_s, violat
 
 
 def write_evidence(prop, tier, seed, cfg, recs, cmds, wall, violations, known_lines, inconclusive):
-    os.makedirs(os.path.join(VERIF, "evidence"), exist_ok=True)
+    os.makedirs(os.path.join(OUT, "evidence"), exist_ok=True)
     decided = [r for r in recs if r["status"] in ("pass", "fail")]
     nontrivial = [r for r in recs if r["status"] == "pass" and r["tier"] in ("Q", "T") and (r["covers_sat"] or 0) >= 1 and not r["covers_unsat"]]
     obligations = sum((r["total"] or 0) for r in recs if r["tier"] in ("Q", "T"))
@@ -595,4 +598,4 @@ def write_evidence(prop, tier, seed, cfg, recs, cmds, wall, violations, known_li
         wall_s=round(wall, 1),
         violations=len(violations),
     )
-    json.dump(ev, open(os.path.join(VERIF, "evidence", "%s.json" % prop), "w"), indent=1)
+    json.dump(ev, open(os.path.join(OUT, "evidence", "%s.json" % prop), "w"), indent=1)
